@@ -142,10 +142,25 @@ MID_PRIMES = [541, 547, 1009, 65521, 65537, 1048573, 1048583, 999983]
 HUGE_PRIMES = [2147483647, 4294967291, 4294967311, 1099511627791, 2305843009213693951, 9223372036854775783, 18446744073709551557]
 
 
+import sympy as _sympy
+RHO_PRIMES = [int(p) for p in _sympy.primerange(542, 6000)] + [65521, 65537, 104729, 1048573]   # beyond the trial-division table (first 100 primes)
+
+
 @st.composite
 def number(draw):
     """n < 2^64 with at most one prime factor above 2^20 (keeps Pollard rho inside constexpr budgets)"""
-    kind = draw(st.integers(0, 5))
+    kind = draw(st.integers(0, 7))
+    if kind >= 6:
+        # two to four prime factors that only Pollard's rho can find (all above 541), optionally with small ones: whichever of them rho meets first,
+        # the factorisation must still come out canonical
+        n = 1
+        for _ in range(draw(st.integers(2, 4))):
+            p = draw(st.sampled_from(RHO_PRIMES))
+            if n * p < (1 << 50):
+                n *= p
+        if kind == 7:
+            n *= draw(st.sampled_from([2, 3, 4, 7, 30, 541]))
+        return n
     n = 1
     for _ in range(draw(st.integers(0, 5))):
         p = draw(st.sampled_from(reps.SMALL_PRIMES[:30] + MID_PRIMES))
